@@ -88,6 +88,12 @@ func (u *scriptUp) ExchangeContext(ctx context.Context, q []byte) (*dnsmsg.Msg, 
 	case strings.HasPrefix(first, "silent"):
 		<-ctx.Done()
 		return nil, context.Cause(ctx)
+	case strings.HasPrefix(first, "late"): // answers after 3.5 s (inside the 6 s request deadline)
+		select {
+		case <-time.After(3500 * time.Millisecond):
+		case <-ctx.Done():
+			return nil, context.Cause(ctx)
+		}
 	case strings.HasPrefix(first, "slow"):
 		select {
 		case <-time.After(150 * time.Millisecond):
